@@ -190,7 +190,12 @@ func (b *Box) maybeGC() {
 
 	defer atomic.StoreUint64(&b.lastGC, now)
 
+	verifYield("maybeGC:before-mark")
+
 	topics2Delete := b.mark(now, epochsAfterWhichWeGC)
+
+	verifYield("maybeGC:after-mark")
+
 	b.sweep(topics2Delete)
 }
 
